@@ -346,3 +346,54 @@ def rate_oracle(case):
         return ("C09:expected-batch-size:float-truncation",
                 f"N={N}, len(loader)={L}: expected_batch_size={e['ebs']} but the integer part of N*(1/L) is {N // L}", {"facts": e})
     return None
+
+
+# --------------------------------------------------------------------------- loader-level distributed shards, live iterators
+def loader_dist_oracle(case):
+    """Property on the real DPDataLoader(distributed=True): with sample_rate >= 1 every rank's (only) batch is its shard; the
+    shards of the W ranks are pairwise disjoint and cover the dataset WHATEVER generator each rank brings (ranks commonly seed
+    their generators with base + rank)."""
+    from opacus.data_loader import DPDataLoader
+
+    N, W = case["N"], case["W"]
+    ds = torch.utils.data.TensorDataset(torch.arange(N))
+    shards = []
+    for rank in range(W):
+        g = torch.Generator().manual_seed(case["seed"] + (rank if case.get("per_rank_seed", True) else 0))
+        with fake_dist(W, rank):
+            dl = DPDataLoader(ds, sample_rate=1.0, distributed=True, generator=g)
+            first = next(iter(dl))[0]
+        shards.append(sorted(int(v) for v in first.tolist()))
+    allidx = sorted(i for s in shards for i in s)
+    if allidx != list(range(N)):
+        dup = sorted({i for i in allidx if allidx.count(i) > 1})
+        missing = sorted(set(range(N)) - set(allidx))
+        return ("C09:distributed:loader-shards-not-a-partition", f"DPDataLoader(distributed=True, sample_rate=1) on {W} ranks with generators seeded {case['seed']} + rank, N={N}: "
+                f"indices {dup[:8]} are in several shards, {missing[:8]} in none", {"shards": shards})
+    return None
+
+
+def live_iterators_oracle(case):
+    """Property on the real sampler: an epoch has len(sampler) batches – also when another iterator over the same sampler
+    (a peek at a batch, an evaluation pass over the private loader) is opened while the epoch is running."""
+    from opacus.utils.uniform_sampler import UniformWithReplacementSampler
+
+    s = UniformWithReplacementSampler(num_samples=case["N"], sample_rate=case["q"], generator=torch.Generator().manual_seed(case["seed"]))
+    L = len(s)
+    it = iter(s)
+    got = 0
+    for _ in range(min(case["before"], L)):
+        next(it)
+        got += 1
+    other = iter(s)
+    for _ in range(case["peek"]):
+        try:
+            next(other)
+        except StopIteration:
+            break
+    for _ in it:
+        got += 1
+    if got != L:
+        return ("C09:epoch-length:second-iterator", f"UniformWithReplacementSampler(num_samples={case['N']}, sample_rate={case['q']}): len = {L}; an epoch interrupted after {case['before']} "
+                f"batches by {case['peek']} batch(es) drawn through a second iterator delivered {got} batches", {"delivered": got, "len": L})
+    return None
